@@ -15,7 +15,7 @@ import (
 func init() {
 	registerEngine("MP", []string{"M1", "P1", "P2"}, runEngineMP)
 	registerEngine("Q", []string{"Q1", "Q2", "Q3", "Q4"}, runEngineQ)
-	registerEngine("S", []string{"S1", "S2", "S3", "S4"}, runEngineS)
+	registerEngine("S", []string{"S1", "S2", "S3", "S4", "S5"}, runEngineS)
 }
 
 // ---- M1 / P2 ------------------------------------------------------------------------------------------------------
@@ -795,11 +795,12 @@ type statsSpec struct {
 	recorder string // recorder type
 	ssrc     string // field holding the recorder's SSRC
 	pkgPath  string // package whose *StreamStats types are the counters
+	registry []string // map field(s) of the interceptor(s) holding one recorder per bound SSRC
 }
 
 var statsSpecs = []statsSpec{
-	{"pkg/stats.recorder", "pkg/stats.recorder.ssrc", "pkg/stats"},
-	{"fixtures/fx.sRec", "fixtures/fx.sRec.ssrc", "fixtures/fx"},
+	{"pkg/stats.recorder", "pkg/stats.recorder.ssrc", "pkg/stats", []string{"pkg/stats.Interceptor.recorders"}},
+	{"fixtures/fx.sRec", "fixtures/fx.sRec.ssrc", "fixtures/fx", []string{"fixtures/fx.GoodS5fan.recs", "fixtures/fx.BadS5fan.recs"}},
 }
 
 func runEngineS(p *Prog, o *obls) {
@@ -833,6 +834,9 @@ func runEngineS(p *Prog, o *obls) {
 		if len(fns) == 0 {
 			o.undecided("S1", ss.recorder, "-", "anchor unresolved: no method of the recorder updates a stats counter")
 			continue
+		}
+		for _, reg := range ss.registry {
+			s5FanOut(p, o, reg)
 		}
 		// callers' guards: a helper called only under an SSRC test inherits it
 		for _, fn := range fns {
@@ -1127,5 +1131,85 @@ func s4CoUpdate(p *Prog, o *obls, fn *ssa.Function, ss statsSpec) {
 		o.bad("S4", key, p.Pos(fn.Pos()), strings.Join(dedupe(bad), "; ")+": the counters no longer describe the same set of packets")
 	} else {
 		o.ok("S4", key, p.Pos(fn.Pos()), fmt.Sprintf("the accumulated counters %s are updated on the same paths", strings.Join(names, ", ")))
+	}
+}
+
+// s5FanOut (rule S5): RTCP is not addressed to one stream by the transport — every RTCP per-packet closure of the
+// interceptor that owns the recorder registry hands each batch to every recorder: it ranges over the registry itself
+// (not over a selection of it), calls the recorder once per iteration unconditionally and never leaves the loop early.
+// Which reports concern a recorder is decided by the recorder (rules S1–S3), where the per-type exemptions live.
+func s5FanOut(p *Prog, o *obls, registry string) {
+	owner := registry[:strings.LastIndex(registry, ".")]
+	cls, _ := p.PktClosures()
+	n := 0
+	for _, c := range cls {
+		if c.Kind != RTCPReader && c.Kind != RTCPWriter || closureOwnerType(c.ownerFn()) != owner {
+			continue
+		}
+		n++
+		key := funcKey(c.Fn) + ":fan-out"
+		var rng *ssa.Range
+		var where *ssa.Function
+		for _, f := range p.calleeGroup(c.Fn) {
+			instrsOf(f, func(in ssa.Instruction) {
+				if r, ok := in.(*ssa.Range); ok && loadOfField(p, r.X, registry) {
+					rng, where = r, f
+				}
+			})
+		}
+		if rng == nil {
+			o.bad("S5", key, p.Pos(c.Fn.Pos()), "the closure does not range over "+registry+" itself: RTCP is handed to a selection of the recorders (or to none), so a report that concerns a stream the selection leaves out is never counted for it")
+			continue
+		}
+		// the loop of this range: header = block of the Next on it
+		var hdr *ssa.BasicBlock
+		var next *ssa.Next
+		for _, r := range *rng.Referrers() {
+			if nx, ok := r.(*ssa.Next); ok {
+				hdr, next = nx.Block(), nx
+			}
+		}
+		body := naturalLoops(where)[hdr]
+		if hdr == nil || body == nil {
+			o.undecided("S5", key, p.instrPos(rng), "the loop of the range over the registry was not recognised")
+			continue
+		}
+		var elem ssa.Value
+		for _, r := range *next.Referrers() {
+			if ex, ok := r.(*ssa.Extract); ok && ex.Index == 2 {
+				elem = ex
+			}
+		}
+		var bad []string
+		for b := range body {
+			for _, s := range b.Succs {
+				if !body[s] && b != hdr {
+					bad = append(bad, fmt.Sprintf("the loop over the recorders can be left early at %s", p.instrPos(b.Instrs[len(b.Instrs)-1])))
+				}
+			}
+		}
+		isCall := func(in ssa.Instruction) bool {
+			c, ok := in.(*ssa.Call)
+			return ok && elem != nil && c.Call.IsInvoke() && p.origin(c.Call.Value) == elem
+		}
+		for _, s := range hdr.Succs {
+			if !body[s] {
+				continue
+			}
+			before := seededCounts(where, s, isCall)
+			for _, pr := range hdr.Preds {
+				if body[pr] && before[pr.Instrs[len(pr.Instrs)-1]]&1 != 0 {
+					bad = append(bad, fmt.Sprintf("an iteration can end (at %s) without handing the batch to the recorder: recorders are skipped by a test made outside the recorder", p.instrPos(pr.Instrs[len(pr.Instrs)-1])))
+				}
+			}
+		}
+		if len(bad) > 0 {
+			o.bad("S5", key, p.instrPos(rng), strings.Join(dedupe(bad), "; "))
+		} else {
+			o.ok("S5", key, p.instrPos(rng), "ranges over the whole registry, one unconditional hand-off per recorder, no early exit")
+		}
+	}
+	if n == 0 {
+		o.undecided("S5", owner, "-", "anchor unresolved: no RTCP closure of the registry's owner found")
 	}
 }
